@@ -1,6 +1,6 @@
 """C14: dials, controlled (manual poller, context expiry as a scheduler choice) and free-running (concurrent dials, census), judged by DialObs.tla."""
 import json, os, random, time
-import vlib, conn
+import vlib, conn, dialp
 
 
 def gen(n, nfree, seed):
@@ -8,12 +8,20 @@ def gen(n, nfree, seed):
     out = []
     for i in range(n):
         out.append({'id': 'dial-%d-%d' % (seed, i), 'seed': seed * 1009 + i, 'strategy': rnd.choice(['random', 'random', 'pct']), 'plan': [],
-                    'peer': rnd.choice(['listen', 'listen', 'refuse', 'drop']), 'expire': rnd.random() < 0.7, 'free': False})
+                    'peer': rnd.choice(['listen', 'listen', 'refuse', 'drop', 'rst', 'rst']), 'expire': rnd.random() < 0.7, 'free': False})
+        if rnd.random() < 0.3:
+            # a host name with two addresses (in-process resolver), dialled one after the other
+            ks = [rnd.choice(['refuse', 'refuse', 'rst', 'drop', 'listen']), rnd.choice(['listen', 'refuse', 'drop', 'rst'])]
+            out[-1].update(addrs=ks, peer='+'.join(ks))
     for i in range(nfree):
-        peer = rnd.choice(['listen', 'listen', 'listen', 'refuse', 'drop'])
+        peer = rnd.choice(['listen', 'listen', 'listen', 'refuse', 'drop', 'rst', 'multi'])
         out.append({'id': 'dialfree-%d-%d' % (seed, i), 'seed': seed * 1009 + i, 'free': True, 'peer': peer, 'dials': rnd.choice([1, 8, 64]),
                     'timeoutus': rnd.choice([1, 20, 50, 100, 200, 500, 2000, 200000]) if peer != 'drop' else rnd.choice([1, 100, 2000, 20000]),
                     'network': rnd.choice(['tcp', 'tcp', 'unix', 'tcp6']) if peer == 'listen' else 'tcp', 'strategy': 'free', 'plan': []})
+        if peer == 'multi':
+            out[-1].update(second=rnd.choice(['drop', 'drop', 'listen']), dials=1, timeoutus=rnd.choice([20000, 100000, 300000]))
+        if peer == 'drop' and rnd.random() < 0.5:
+            out[-1]['dials'] = 1
     return out
 
 
@@ -28,6 +36,10 @@ def main(pid, tier, replay_path=None):
             scs = [json.load(open(replay_path))['scenario']] if replay_path else gen(600 if tier == 'quick' else 60000, 60 if tier == 'quick' else 5000, seed)
             ctl = [s for s in scs if not s['free']]
             free = [s for s in scs if s['free']]
+            # design level: Dial.tla (exhaustive), and its behaviours as schedules for the real dial
+            dstates, dtrans = dialp.exhaustive(sc, tier)
+            msc = [] if replay_path else dialp.scenarios(sc, tier, seed)
+            ctl += msc
             res, crashed = conn.run_scenarios(sc, binary, ctl, 'd', procs=12, test='TestVerifDialScenarios')
             if not replay_path:
                 extra = conn.stall_variants(ctl[:40 if tier == 'quick' else 2500], res, per_scenario=40, rnd=random.Random(seed), skip_actors=())
@@ -59,6 +71,10 @@ def main(pid, tier, replay_path=None):
                 vlib.log('test process died in %s:\n%s' % (s0['id'], o[-1000:]))
             vs, nlines, st = conn.validate(sc, res, [s['id'] for s in scs], 'd', module='TraceDial', deps=('DialObs.tla',))
             byid = {s['id']: s for s in scs}
+            # conformance with the implementation-shaped spec: every controlled execution, step by step
+            idone, itotal, ibad = dialp.impl_check(sc, [(s, res[s['id']]) for s in ctl[:25000] if s['id'] in res and not res[s['id']]['info'].get('stuck')], 'all')
+            if idone != itotal:
+                vlib.log('note: Dial.tla could not follow a recorded schedule (step %d of %d, scenario %s): the code no longer matches it\n   %s' % (idone + 1, itotal, ibad[0], '\n   '.join(ibad[2])))
             seen = set()
             for v in vs:
                 if not v['rule'].startswith(pid + '.') or (v['scenario'], v['rule']) in seen:
@@ -81,11 +97,13 @@ def main(pid, tier, replay_path=None):
                 r = res.get(s['id'])
                 if r:
                     samples.append({'scenario': {k: s[k] for k in s if k != 'plan'}, 'events': ['%s:%s:%s:%s' % (e['e'], e['k'], e['n'], e['m']) for e in r['events'][:30]]})
-            cov = {'states': st.get('states', 1), 'transitions': st.get('transitions', 1), 'traces_validated_against_impl': len(res), 'samples': samples,
+            cov = {'states': dstates, 'transitions': dtrans, 'trace_validation_states': st.get('states', 1), 'traces_validated_against_impl': len(res), 'samples': samples,
+                   'Dial_impl_spec_conformance': {'steps_followed': idone, 'steps_total': itotal, 'all_followed': idone == itotal},
+                   'tlc_behaviours_replayed': len(msc), 'tlc_counterexample_schedules_replayed': len([s for s in msc if s['id'].startswith('tlc-')]),
                    'controlled_dials': len(ctl), 'free_running_batches': len(free), 'free_running_dials': sum(s['dials'] for s in free), 'self_connect_batches': len([s for s in free if s['peer'] == 'selfconnect']),
-                   'trace_events_validated': nlines, 'known_findings_matched': sorted(known_hit), 'spec_modules': vlib.spec_hashes(['DialObs.tla', 'TraceDial.tla']),
-                   'explanation': 'controlled: one DialTCP against a listening / closed / never-accepting port, manual poller, context expiry as scheduler choice, single-stall exploration; '
-                                  'free-running: concurrent DialConnection (tcp/tcp6/unix) with timeouts around the latency, echo on success, /proc/self/fd and slot census'}
+                   'trace_events_validated': nlines, 'known_findings_matched': sorted(known_hit), 'spec_modules': vlib.spec_hashes(['Dial.tla', 'TraceDialImpl.tla', 'DialObs.tla', 'TraceDial.tla']),
+                   'explanation': 'Dial.tla (dialTCP loop, connect, pollDesc, poller side of the temporary slot, kernel readiness) model-checked exhaustively (states/transitions are its); its counterexamples of three modelled deviations and simulated behaviours replayed as schedules; every controlled execution replayed step by step in Dial.tla; controlled: one dialTCP against a listening / closed / never-accepting / resetting port (the reset placed by the scheduler before, between or after the write-ready callback and the SO_ERROR read), manual poller, context expiry as scheduler choice, single-stall exploration; '
+                                  'free-running: concurrent DialConnection (tcp/tcp6/unix; host names with two addresses via an in-process resolver: refused then dropping / accepting) with timeouts around the latency, echo on success, /proc/self/fd and slot census'}
             vlib.write_evidence(pid, tier, 'model_checking', cov, time.time() - t0, len(violations), ['TLC/SANY', 'controlled scheduler', 'loopback connect behaviour as observed', 'the self-connect retry needs a private network namespace (unshare -n); it is skipped if that is not permitted'])
     except vlib.Inconclusive as e:
         vlib.log('INCONCLUSIVE: %s' % e)
